@@ -1,4 +1,5 @@
 import Wx.Glob.ThrottleRun
+import Wx.Kb.Thm
 /-! # C01 — Accepted events reach the action handler exactly once; rejected ones never
 
 > While Watchexec is running, every event accepted into its queue that the configured filter accepts, or that is urgent
@@ -37,5 +38,27 @@ theorem rejected_event_affects_nothing_else (s : TS) (t : Turn) (e : Ev) (hr : t
 /-- only non-urgent, non-empty events are shown to the filter; every runtime error comes from an erroring verdict -/
 theorem filter_sees_only_filterable (s : TS) (t : Turn) :
     (∀ e ∈ (turn s t).filtered, bypass e = false) ∧ (∀ e ∈ (turn s t).errs, e.verdict = .err ∧ accepted e = false) := turn_filtered s t
+
+/-! ### the keyboard source (`sources/keyboard.rs`, model `Kb`): how a keyboard EOF gets INTO the queue
+
+A script is any list of `keyboard_events(b)` calls (each also a change signal; several before the worker runs are one
+wake-up), input bytes, end of input on stdin, and points at which worker and watch task have run as far as they can. -/
+
+/-- **a keyboard EOF is never lost**: once things have settled with the source enabled and stdin at end of input, the EOF event
+    has been sent — whatever run-time switching on and off, coalesced or not, came before -/
+theorem keyboard_eof_is_never_lost (ops : List Kb.Op) :
+    (Kb.settle (Kb.run Kb.init ops)).enabled = true → (Kb.settle (Kb.run Kb.init ops)).eof = true →
+    1 ≤ (Kb.settle (Kb.run Kb.init ops)).delivered := Kb.eof_never_lost ops
+
+/-- **exactly one event in the plain use** (enabled once, any input, end of input, anything but a configuration change after) -/
+theorem keyboard_eof_exactly_once (ds rest : List Kb.Op) (hds : ∀ op ∈ ds, Kb.quietOp op = true) (hrest : ∀ op ∈ rest, Kb.noSet op = true) :
+    (Kb.run Kb.init ([.set true, .settle] ++ ds ++ [.close, .settle] ++ rest)).delivered = 1 := Kb.eof_exactly_once ds rest hds hrest
+
+/-- at most one EOF event per enabling of the source, and none at all while it was never enabled -/
+theorem keyboard_eof_at_most_once_per_enabling (ops : List Kb.Op) : (Kb.run Kb.init ops).delivered ≤ Kb.enables ops :=
+  Kb.delivered_le_enables ops
+
+theorem disabled_keyboard_source_is_silent (ops : List Kb.Op) (h : ∀ op ∈ ops, op ≠ .set true) : (Kb.run Kb.init ops).delivered = 0 :=
+  Kb.disabled_delivers_nothing ops h
 
 end Props.C01
